@@ -116,6 +116,12 @@ Singles == [
   funcs      |-> <<SFn(<<102>>, <<>>, FALSE, <<>>), SPrint(Nm(<<102>>)), SPrint(EFunc(<<>>, FALSE, <<>>)),
                    SPrint(Nm(N_print)), SPrint(ETProp(I(1), N_type)), SPrint(ETProp(Str(<<>>), N_len)),
                    SPrint(EList(<<Nm(<<102>>)>>))>>,
+  \* keys and strings with line breaks, quotes and backslashes at depth 0, 1, 2 (every line of a nested value
+  \* moves with its level, also the second line of a key)
+  multilinekeys |-> <<SDecl(A, Str(<<102, 10, 115>>)),
+                      SDecl(Bv, EObj(<<Pair(A, I(1)), Pair(Str(<<112>>), EList(<<A>>)), Pair(Str(<<34, 92>>), Str(<<34, 92, 10>>))>>)),
+                      SPrint(Bv), SPrint(EList(<<Bv>>)), SPrint(EObj(<<Pair(Str(<<114, 10>>), EList(<<Bv, EObj(<<>>)>>))>>)),
+                      SPrint(EList(<<EList(<<EObj(<<Pair(A, EObj(<<Pair(A, A)>>))>>)>>)>>))>>,
   emptyconts |-> <<SPrint(EList(<<>>)), SPrint(EObj(<<>>)), SPrint(EList(<<EList(<<>>), EObj(<<>>)>>))>>,
   longlist   |-> <<SPrint(ERange(I(0), I(40))), SPrint(EList(<<ERange(I(0), I(34)), Str(<<120>>)>>))>>,
   longfail   |-> <<SDecl(A, EBin("+", ERange(I(0), I(39)), EList(<<I(0)>>))), SPrint(I(1)),
